@@ -555,8 +555,52 @@ func goTypesPkg(L *Loaded) *types.Package {
 	return out
 }
 
+// hasTypeSwitch: the declaration's body contains a type switch.
+func hasTypeSwitch(fd *ast.FuncDecl) bool {
+	found := false
+	if fd != nil && fd.Body != nil {
+		ast.Inspect(fd.Body, func(n ast.Node) bool {
+			if _, ok := n.(*ast.TypeSwitchStmt); ok {
+				found = true
+			}
+			return !found
+		})
+	}
+	return found
+}
+
 func analyseWalker(L *Loaded, p *packages.Package, name string) *walkerInfo {
 	fd, _ := L.funcDecl(genPkg, "", name)
+	// an entry point that only sets up a carrier (typeExprBuilder{...}.typeExpr(t)): the walker is the method or function
+	// it hands the type to
+	for depth := 0; fd != nil && !hasTypeSwitch(fd) && depth < 2; depth++ {
+		var next *ast.FuncDecl
+		ast.Inspect(fd.Body, func(n ast.Node) bool {
+			call, ok := n.(*ast.CallExpr)
+			if !ok || next != nil {
+				return true
+			}
+			takesType := false
+			for _, a := range call.Args {
+				if t := p.TypesInfo.TypeOf(a); t != nil && t.String() == "go/types.Type" {
+					takesType = true
+				}
+			}
+			if takesType {
+				if cd := calleeDecl(p, call); cd != nil && cd != fd && hasTypeSwitch(cd) {
+					next = cd
+				}
+			}
+			return true
+		})
+		if next == nil {
+			break
+		}
+		fd = next
+	}
+	if fd != nil && !hasTypeSwitch(fd) {
+		fd = nil
+	}
 	if fd == nil {
 		// by role: a function with a go/types.Type first parameter whose body is a type switch on it
 		want := "(go/ast.Expr, error)"
@@ -564,7 +608,7 @@ func analyseWalker(L *Loaded, p *packages.Package, name string) *walkerInfo {
 			want = ""
 		}
 		for _, fn := range pkgFuncs(L, genPkg) {
-			if fn.Parent() != nil || fn.Signature.Recv() != nil || len(fn.Params) == 0 {
+			if fn.Parent() != nil || len(fn.Params) == 0 {
 				continue
 			}
 			sg := fn.Signature.String()
@@ -578,7 +622,7 @@ func analyseWalker(L *Loaded, p *packages.Package, name string) *walkerInfo {
 				continue
 			}
 			if (want != "" && strings.HasSuffix(sg, want)) || (want == "" && fn.Signature.Results().Len() == 0) {
-				if d := funcDeclOfSSA(L, fn); d != nil {
+				if d := funcDeclOfSSA(L, fn); d != nil && hasTypeSwitch(d) {
 					fd = d
 				}
 			}
